@@ -162,13 +162,13 @@ def _res_to_dict(r):
 
 
 def _explore_task(task):
-    ui, prefixes, export = task
+    ui, prefixes, export, seed_target = task
     u = _UNITS[ui]
     e = Explorer(max_paths=u.max_paths, max_depth=u.max_depth, seed=_SEED, query_timeout_ms=u.query_timeout_ms)
     e.export_limit = export
     t = time.time()
     try:
-        res = e.explore(u.sym, prefixes=prefixes)
+        res = e.explore(u.sym, prefixes=prefixes, stop_when_queued=seed_target)
         err = None
     except Unsupported as x:
         res = []
@@ -177,17 +177,22 @@ def _explore_task(task):
         res = []
         err = "%s: %s\n%s" % (type(x).__name__, x, "".join(traceback.format_tb(x.__traceback__)[-8:]))
     return {"unit": ui, "results": [_res_to_dict(r) for r in res], "error": err, "paths": e.paths, "queries": e.queries,
-            "solver_s": e.solver_time, "wall_s": time.time() - t, "hash_attempts": e.hash_attempts, "exported": e.exported}
+            "solver_s": e.solver_time, "wall_s": time.time() - t, "hash_attempts": e.hash_attempts, "exported": e.exported,
+            "left": e.work if (seed_target is not None and err is None) else []}
 
 
 def explore_units(units, seed=0, nproc=None, budget_s=None):
-    """explore every unit exhaustively; returns per-unit aggregated dicts"""
+    """explore every unit exhaustively; returns per-unit aggregated dicts.
+    Round 1: every unit is started in the pool; units marked split explore breadth-first until
+    enough prefixes are queued.  Round 2: the queued prefixes (disjoint subtrees) are explored
+    depth-first across the pool."""
     global _UNITS, _SEED
     _UNITS = _b.list(units)
     _SEED = seed
     nproc = nproc or NPROC
     agg = [{"unit": u.name, "results": [], "errors": [], "paths": 0, "queries": 0, "solver_s": 0.0, "cpu_s": 0.0,
             "hash_attempts": 0, "exported": []} for u in units]
+    round2 = []
 
     def merge(out):
         a = agg[out["unit"]]
@@ -198,31 +203,22 @@ def explore_units(units, seed=0, nproc=None, budget_s=None):
             a[k] += out[k]
         a["cpu_s"] += out["wall_s"]
         a["exported"] += out["exported"]
+        for p in out["left"]:
+            round2.append((out["unit"], [p], 1, None))
 
-    tasks = []
-    for ui, u in enumerate(units):
-        if u.split and nproc > 1:
-            e = Explorer(max_paths=u.max_paths, max_depth=u.max_depth, seed=seed, query_timeout_ms=u.query_timeout_ms)
-            t = time.time()
-            try:
-                res = e.explore(u.sym, stop_when_queued=3 * nproc)
-                err = None
-            except Unsupported as x:
-                res, err = [], "Unsupported: %s\n%s" % (x, "".join(traceback.format_tb(x.__traceback__)[-6:]))
-            merge({"unit": ui, "results": [_res_to_dict(r) for r in res], "error": err, "paths": e.paths,
-                   "queries": e.queries, "solver_s": e.solver_time, "wall_s": time.time() - t,
-                   "hash_attempts": e.hash_attempts, "exported": []})
-            for p in e.work:
-                tasks.append((ui, [p], 1))
-        else:
-            tasks.append((ui, [[]], 3))
-    if nproc <= 1 or _b.len(tasks) <= 1:
+    tasks = [(ui, [[]], 3, (4 * nproc if (u.split and nproc > 1) else None)) for ui, u in enumerate(units)]
+    # splittable (big) units first
+    tasks.sort(key=lambda t: t[3] is None)
+    if nproc <= 1:
         for t in tasks:
             merge(_explore_task(t))
-    else:
-        ctx = mp.get_context("fork")
-        with ctx.Pool(min(nproc, _b.len(tasks))) as pool:
-            for out in pool.imap_unordered(_explore_task, tasks, chunksize=1):
+        return agg
+    ctx = mp.get_context("fork")
+    with ctx.Pool(nproc) as pool:
+        for out in pool.imap_unordered(_explore_task, tasks, chunksize=1):
+            merge(out)
+        if round2:
+            for out in pool.imap_unordered(_explore_task, round2, chunksize=1):
                 merge(out)
     return agg
 
